@@ -379,6 +379,10 @@ def complex_segment_stream(ctx, n, prefix="C16"):
         d = b - a
         if abs(d @ d) < 1e-9:
             continue                      # isotropic direction: the bilinear Gram determinant vanishes (outside the statement)
+        ha, hb = np.append(a, 1.0), np.append(b, 1.0)
+        gram = (ha @ ha) * (hb @ hb) - (ha @ hb) ** 2
+        if abs(gram) < 1e-9:
+            continue                      # the same for the homogeneous vectors: (a x b).(a x b) = 0, an isotropic supporting line
         xs = [0.0, 0.25, 0.5, 1.0, 1.5, 3.0, -0.5]
         exp = [0 <= x <= 1 for x in xs]
         desc = f"complex segment {a.tolist()} -> {b.tolist()}, parameters {xs}"
